@@ -889,25 +889,39 @@ func (v *ValidationExpr) HasRequiredOnly() bool {
 	return true
 }
 
-// Dup makes a shallow dup of the validation.
+// Dup makes a copy of the validation that shares no memory with v.
 func (v *ValidationExpr) Dup() *ValidationExpr {
 	var req []string
 	if len(v.Required) > 0 {
 		req = make([]string, len(v.Required))
 		copy(req, v.Required)
 	}
+	var vals []any
+	if v.Values != nil {
+		vals = make([]any, len(v.Values))
+		copy(vals, v.Values)
+	}
 	return &ValidationExpr{
-		Values:           v.Values,
+		Values:           vals,
 		Format:           v.Format,
 		Pattern:          v.Pattern,
-		ExclusiveMinimum: v.ExclusiveMinimum,
-		Minimum:          v.Minimum,
-		ExclusiveMaximum: v.ExclusiveMaximum,
-		Maximum:          v.Maximum,
-		MinLength:        v.MinLength,
-		MaxLength:        v.MaxLength,
+		ExclusiveMinimum: dupPtr(v.ExclusiveMinimum),
+		Minimum:          dupPtr(v.Minimum),
+		ExclusiveMaximum: dupPtr(v.ExclusiveMaximum),
+		Maximum:          dupPtr(v.Maximum),
+		MinLength:        dupPtr(v.MinLength),
+		MaxLength:        dupPtr(v.MaxLength),
 		Required:         req,
 	}
+}
+
+// dupPtr returns a pointer to a copy of the value p points to, nil if p is nil.
+func dupPtr[T any](p *T) *T {
+	if p == nil {
+		return nil
+	}
+	v := *p
+	return &v
 }
 
 // Debug dumps the validation to STDOUT in a goa developer friendly way.
